@@ -300,6 +300,12 @@ impl NCase {
                     sig: "derive-accepts",
                 }
             }
+            7 | 8 | 9 if v >= 160 => {
+                // generated attribute layouts: 1-4 scale_info lists holding known keys, with either a
+                // second occurrence of one once-only key or an unknown key dropped at any position
+                let (neg, twin, what) = attr_layout_gen(self.kind % N_KINDS == 7, self.salt, v, d);
+                Programs { negative: derive_prog(&neg, "X<u8>"), twin: derive_prog(&twin, "X<u8>"), builder: false, what, sig: "derive-accepts" }
+            }
             7 => {
                 // unknown item-level scale_info attribute
                 let unk = ["foo", "rename = \"x\"", "skip", "bound(T: TypeInfo)", "capture_doc = \"always\"", "replace_segments(\"a\", \"b\")", "crate_path = scale_info", "index = 3"][(v % 8) as usize];
@@ -390,6 +396,68 @@ impl NCase {
             }
         }
     }
+}
+
+/// (negative item, positive twin, description): known keys spread over 1-4 `#[scale_info(..)]`
+/// lists (other attributes and doc comments in between), plus the defect at a generated position
+fn attr_layout_gen(unknown: bool, salt: u16, v: u8, d: u8) -> (String, String, &'static str) {
+    // once-only keys with two spellings each (a repetition need not be literally equal)
+    let once: [(&str, &str); 4] = [
+        ("bounds(T: TypeInfo + 'static)", "bounds(T: ::scale_info::TypeInfo + 'static)"),
+        ("skip_type_params(T)", "skip_type_params(T)"),
+        ("capture_docs = \"always\"", "capture_docs = \"default\""),
+        ("crate = ::scale_info", "crate = scale_info"),
+    ];
+    let unknown_keys = ["foo", "rename = \"x\"", "skip", "bound(T: TypeInfo)", "capture_doc = \"always\"", "replace_segments(\"a\", \"b\")", "crate_path = scale_info", "index = 3", "Bounds(T: TypeInfo)", "docs", "compact", "skip_type_param(T)"];
+    let n_lists = 1 + (salt % 4) as usize;
+    let mut lists: Vec<Vec<String>> = vec![vec![]; n_lists];
+    // which once-only keys are present (bit mask), where each goes
+    let present = (salt / 4 % 16) as u8;
+    let dup_key = (v as usize) % 4;
+    let mut r = salt / 64;
+    let mut keys: Vec<usize> = (0..4).filter(|k| present >> k & 1 == 1 || (!unknown && *k == dup_key)).collect();
+    // bounds and skip_type_params on the same parameter exclude each other in a sensible twin
+    if keys.contains(&0) && keys.contains(&1) {
+        let drop = if !unknown && dup_key == 1 { 0 } else { 1 };
+        keys.retain(|k| *k != drop);
+    }
+    for k in keys {
+        lists[(r % n_lists as u16) as usize].push(once[k].0.to_string());
+        r /= 4;
+    }
+    // replace_segment may legally repeat: sprinkle some
+    for i in 0..(d % 3) as usize {
+        lists[(i + d as usize) % n_lists].push(format!("replace_segment(\"m{i}\", \"n\")"));
+    }
+    let twin_lists = lists.clone();
+    // the defect
+    let at_list = (d as usize / 3) % n_lists;
+    let defect = if unknown { unknown_keys[(v as usize / 4) % unknown_keys.len()].to_string() } else { once[dup_key].1.to_string() };
+    let pos = if lists[at_list].is_empty() { 0 } else { (d as usize / 12) % (lists[at_list].len() + 1) };
+    lists[at_list].insert(pos, defect);
+    let skipped = lists.iter().flatten().any(|a| a.starts_with("skip_type_params"));
+    let render = |ls: &Vec<Vec<String>>| -> String {
+        let mut out = String::from("#[derive(TypeInfo)]\n");
+        for (i, l) in ls.iter().enumerate() {
+            if l.is_empty() {
+                continue;
+            }
+            out.push_str(&format!("#[scale_info({})]\n", l.join(", ")));
+            match (i + d as usize) % 4 {
+                0 => out.push_str("/// docs in between\n"),
+                1 => out.push_str("#[allow(dead_code)]\n"),
+                _ => {}
+            }
+        }
+        let body = if skipped { "a: core::marker::PhantomData<T>" } else { "a: T" };
+        match d / 64 {
+            0 | 1 => out.push_str(&format!("pub struct X<T> {{ {body} }}")),
+            2 => out.push_str(&format!("pub struct X<T>({});", body.trim_start_matches("a: "))),
+            _ => out.push_str(&format!("pub enum X<T> {{ A {{ {body} }}, B }}")),
+        }
+        out
+    };
+    (render(&lists), render(&twin_lists), if unknown { "unknown scale_info key in a generated attribute layout" } else { "repeated once-only scale_info key in a generated attribute layout" })
 }
 
 /// (negative item, positive twin, instantiation) for a `bounds(..)` attribute over several parameters
